@@ -9,7 +9,7 @@ from ..flow import Flow
 from ..model import AnalysisError, Cls, Func, Program, walk_own
 from ..report import Report
 from ..resolve import const_value, dotted
-from ..util import calls_in, returns_of, src
+from ..util import assigned_value, calls_in, returns_of, src
 from .poolfam import PoolFacts, chunking_idiom, queue_call, tag_pass_through
 
 
@@ -44,8 +44,7 @@ class _PreStart(Client):
         pf = self.pf
         if kind == "store" and isinstance(node, ast.Attribute):
             fld = pf.pool_field(node, ctx.func, ctx.scope.cls)
-            st = getattr(node, "_parent", None)
-            val = st.value if isinstance(st, ast.Assign) else None
+            val = assigned_value(node)
             if fld == pf.flag and not started:
                 v = const_value(val, None)
                 if isinstance(v, (bool, int)):
@@ -140,8 +139,8 @@ class _FeederRun(Client):
                     return ((reset, False, cleared),)
                 return ((True, pending, cleared),)
             if fld == pf.flag:
-                st = getattr(node, "_parent", None)
-                v = const_value(st.value, None) if isinstance(st, ast.Assign) else None
+                av = assigned_value(node)
+                v = const_value(av, None) if av is not None else None
                 if v is not None and not v:
                     if pending:
                         self.problems.append((node.lineno, "R3", "the flag is cleared while a work put is not yet counted"))
